@@ -51,11 +51,12 @@ func (o c17Op) String() string {
 }
 
 type c17World struct {
-	w    *world.World
-	root sdk.Context
-	ms   cpctypes.MsgServer
-	gov  string
-	obs  func(class string) // optional: receives the class of every exposure observation
+	w     *world.World
+	root  sdk.Context
+	ms    cpctypes.MsgServer
+	gov   string
+	obs   func(class string) // optional: receives the class of every exposure observation
+	cands []string           // order pass: bech32 strings of the candidates D0…, ascending
 }
 
 type c17Case struct {
@@ -69,12 +70,28 @@ type c17Case struct {
 	// Scale, when set, names a state of the scale pass (c17_scale.go): a registry grown to N contracts with a pattern of
 	// disabled ones.
 	Scale *c17Scale `json:"scale,omitempty"`
+	// Cands > 0 (order pass, c17_order.go): that many candidate deployer accounts exist, named D0… by the rank of their
+	// bech32 strings; GenWl is the whitelist at genesis (names).
+	Cands int      `json:"deployer_candidates,omitempty"`
+	GenWl []string `json:"genesis_whitelist,omitempty"`
 }
 
 func c17Setup(c c17Case) *c17World {
 	cfg := world.Config{NumWallets: 2, DeployErc20: c.Erc20, DeployStaking: c.Staking}
 	if c.WlGen {
 		cfg.CpcWhitelist = []string{world.NewAcct("wal1").Bech()}
+	}
+	var cands []string
+	if c.Cands > 0 {
+		cands = c17Cands(c.Cands)
+		cfg.CpcWhitelist = []string{}
+		for _, n := range c.GenWl {
+			var i int
+			if _, err := fmt.Sscanf(n, "D%d", &i); err != nil || i < 0 || i >= len(cands) {
+				panic("genesis whitelist name " + n)
+			}
+			cfg.CpcWhitelist = append(cfg.CpcWhitelist, cands[i])
+		}
 	}
 	if c.Scale != nil {
 		// one denomination with genesis supply per contract to deploy, all held by a bystander account (the accounts that
@@ -88,7 +105,7 @@ func c17Setup(c c17Case) *c17World {
 	}
 	w := world.New(cfg)
 	w.Block(nil)
-	return &c17World{w: w, root: w.Ctx(), ms: cpckeeper.NewMsgServerImpl(w.App.CPCKeeper), gov: authtypes.NewModuleAddress(govtypes.ModuleName).String()}
+	return &c17World{w: w, root: w.Ctx(), ms: cpckeeper.NewMsgServerImpl(w.App.CPCKeeper), gov: authtypes.NewModuleAddress(govtypes.ModuleName).String(), cands: cands}
 }
 
 func (cw *c17World) auth(name string) string {
@@ -99,6 +116,10 @@ func (cw *c17World) auth(name string) string {
 		return cw.w.Wallets[1].Bech()
 	case "gov":
 		return cw.gov
+	}
+	var i int
+	if _, err := fmt.Sscanf(name, "D%d", &i); err == nil && i >= 0 && i < len(cw.cands) {
+		return cw.cands[i]
 	}
 	panic("authority " + name)
 }
@@ -620,6 +641,7 @@ func runC17(replay string) int {
 		"set-meta is the keeper operation an upgrade handler would use (SetCustomPrecompiledContractMeta(meta, false))",
 		"exposure is probed with a view call through the real NewEVM in deliver / check / re-check contexts, through the EthCall query, and from constructor code of a creation message (real NewEVM + evm.Create, and EthCall without recipient)",
 		"the reference set of registrations is read from the cpc KV store with a raw prefix iterator, not through the keeper's listing (which feeds the EVM)",
+		"order pass: the reference whitelist is the set of exact address strings handed to the last accepted UpdateParams message (or configured at genesis), cross-checked as a set with the parameters in the KV store",
 		"scale pass: registries are grown by DeployErc20Contract messages through the real message server on one branch of the committed state (as the successful transactions of one block), one denomination with genesis supply (held by a bystander account) per contract",
 	}
 	if replay != "" {
@@ -631,6 +653,9 @@ func runC17(replay string) int {
 			}
 			if c.Scale != nil {
 				return c17ScaleReplay(c)
+			}
+			if c.Cands > 0 {
+				return c17OrderReplay(c)
 			}
 			cw := c17Setup(c)
 			ctx := cw.root
@@ -694,14 +719,17 @@ func runC17(replay string) int {
 			c17Search(run, c, alpha, depth, dl)
 		}
 		c17ScalePass(run, mine)
+		c17OrderPass(run, shard, n, run.Thorough())
 	})
+	c17OrderSanity(run, run.Thorough())
 	run.Coverage["states"] = run.NumDistinct()
 	run.Coverage["traces_validated_against_impl"] = int(run.Counter("transitions"))
 	if _, ok := run.Coverage["exhaustive"]; !ok {
 		run.Coverage["exhaustive"] = true
 	}
 	run.Coverage["max_depth"] = depth
-	run.Coverage["rule"] = fmt.Sprintf("BFS over branch states from 8 worlds (cpc genesis flags DeployErc20 × DeployStaking × whitelist at genesis) with a %d-op alphabet: UpdateParams (authority gov/other × whitelist × protocol version 0/1/2), DeployErc20Contract (authority whitelisted/other/gov × denom {wei, utwo, no-supply, empty, padded} × metadata at validation boundaries), DeployStakingContract, and the upgrade-handler keeper op SetCustomPrecompiledContractMeta (disable / enable / change type) to depth %d; registry invariants and the exposure oracle (view call to every registered address, its successor, the next dynamic address and fixed foreign addresses in deliver/check/recheck/EthCall modes and from the constructor of a creation message) evaluated in every distinct state; ghost pass: in the root state and every state one operation away, every accepted parameter update is executed on a discarded branch and every operation of the alphabet must then behave exactly as without it; %s", len(alpha), depth, c17ScaleRule(scale))
+	run.Coverage["rule"] = fmt.Sprintf("BFS over branch states from 8 worlds (cpc genesis flags DeployErc20 × DeployStaking × whitelist at genesis) with a %d-op alphabet: UpdateParams (authority gov/other × whitelist × protocol version 0/1/2), DeployErc20Contract (authority whitelisted/other/gov × denom {wei, utwo, no-supply, empty, padded} × metadata at validation boundaries), DeployStakingContract, and the upgrade-handler keeper op SetCustomPrecompiledContractMeta (disable / enable / change type) to depth %d; registry invariants and the exposure oracle (view call to every registered address, its successor, the next dynamic address and fixed foreign addresses in deliver/check/recheck/EthCall modes and from the constructor of a creation message) evaluated in every distinct state; ghost pass: in the root state and every state one operation away, every accepted parameter update is executed on a discarded branch and every operation of the alphabet must then behave exactly as without it; %s; %s", len(alpha), depth, c17ScaleRule(scale), c17OrderRule(run.Thorough()))
+	run.Coverage["order_states"] = int(run.Counter("order_states"))
 	run.Coverage["scale_sizes"] = c17ScaleSizes(scale)
 	return run.Finish()
 }
